@@ -33,6 +33,7 @@ REGISTRY = {
     "C16": ("c16", ["Esp.Props.C16"]),
     "C17": ("c17", ["Esp.Props.C17"]),
     "C20": ("c20", ["Esp.Props.C20"]),
+    "C18": ("c18", ["Esp.Props.C18"]),
     "C19": ("c19", ["Esp.Props.C19"]),
 }
 
